@@ -163,6 +163,7 @@ def actions(sysm):
   for i in ids:
     acts.append(('CompleteTrial', 's', i, 'final'))
     acts.append(('CompleteTrial', 's', i, 'infeasible'))
+    acts.append(('CompleteTrial', 's', i, 'infeasible-noreason'))
     acts.append(('DeleteTrial', 's', i))
     acts.append(('StopTrial', 's', i))
   acts.append(('Restart',))
